@@ -1576,6 +1576,57 @@ func c18PSKCheckCoversEveryKey(p *Prog, r *Report, rule string) {
 					ok = true
 				}
 			}
+			if !ok {
+				// slices.IndexFunc / slices.ContainsFunc over the list with a predicate that compares
+				// len(its parameter) with the expected length, and the "found" outcome an error
+				for _, cs := range fc.AllCalls() {
+					if cs.Fn == nil || cs.Fn.Pkg() == nil || cs.Fn.Pkg().Path() != "slices" || (cs.Fn.Name() != "IndexFunc" && cs.Fn.Name() != "ContainsFunc") || len(cs.Call.Args) != 2 {
+						continue
+					}
+					if objOf(info, cs.Call.Args[0]) != po {
+						continue
+					}
+					lit, isLit := ast.Unparen(cs.Call.Args[1]).(*ast.FuncLit)
+					if !isLit || len(lit.Type.Params.List) != 1 || len(lit.Type.Params.List[0].Names) != 1 || len(lit.Body.List) != 1 {
+						continue
+					}
+					elem := info.Defs[lit.Type.Params.List[0].Names[0]]
+					rs, isRet := lit.Body.List[0].(*ast.ReturnStmt)
+					if !isRet || len(rs.Results) != 1 {
+						continue
+					}
+					be, isBin := ast.Unparen(rs.Results[0]).(*ast.BinaryExpr)
+					if !isBin || be.Op != token.NEQ {
+						continue
+					}
+					predOK := false
+					for _, pr := range [][2]ast.Expr{{be.X, be.Y}, {be.Y, be.X}} {
+						if c, isC := ast.Unparen(pr[0]).(*ast.CallExpr); isC && exprStr(c.Fun) == "len" && len(c.Args) == 1 && objOf(info, c.Args[0]) == elem && objOf(info, pr[1]) == want {
+							predOK = true
+						}
+					}
+					if !predOK {
+						continue
+					}
+					// the found outcome is an error: IndexFunc result tested >= 0 / != -1, ContainsFunc tested true
+					var found []Edge
+					if cs.Fn.Name() == "ContainsFunc" {
+						found = cs.ResultEdges(0, WantTrue)
+					} else if ro := cs.ResultVar(0); ro != nil {
+						found = append(fc.TestEdgesCmp(ro, token.GEQ, 0), fc.TestEdgesCmp(ro, token.NEQ, -1)...)
+						found = append(found, fc.TestEdgesCmp(ro, token.GTR, -1)...)
+					}
+					good := len(found) > 0
+					for _, e := range found {
+						if !errorOnlyFrom(fc, e) {
+							good = false
+						}
+					}
+					if good {
+						ok = true
+					}
+				}
+			}
 			r.Check(ok, rule, prefix+":every-element-length-tested:"+fmt.Sprintf("param#%d:%s", i, po.Type().String()), p.posStr(fc.Body.Pos()), "each element of the key list has its own length compared with the method's key length inside a loop over the list", "the elements of the key list "+po.Name()+" are not each length-checked (the loop over the list must compare len(element) with the method's key length and return an error on mismatch): identity keys of the wrong length are accepted at load and select the wrong AES variant or panic on the first connection")
 		}
 	}
